@@ -67,5 +67,5 @@ CARRIED = {
     # the free unknowns of a modal analysis are those of dof.partition over the job's boundaries: the selection a Boundary
     # makes (all fx / fy / fz / mode / skip / mask options) is the C08 `boundary` contract
     "C18": [("C08", "boundary", None)],
-    "C09": [("C15", "Job.evaluate", None), ("C15", "Step.generate", None), ("C08", "loadcase", None)],
+    "C09": [("C15", "Job.evaluate", None), ("C15", "Step.generate", None), ("C08", "loadcase", None), ("C08", "apply", None)],
 }
